@@ -1,8 +1,191 @@
 import Driver.Proto
-namespace Driver.C14
+import AdaptaVerif.Check.Drawing
+/-!
+Driver mode c14.  Reads the before/after drawings and the returned SepMatrix dumped by
+`harness/c14.cpp`, decides property C14 with the proven checker `Check.Drawing.cleanDrawing`
+(`Props/C14.lean: cleanDrawing_correct`), and on failure explains which clause failed on which ids.
 
-def run (_args : List String) : IO UInt32 := do
-  IO.eprintln "driver mode c14: not implemented yet"
-  return 2
+Parameters fixed here (and stated in check/props/C14.py):
+* overlap tolerance 0 (exact);
+* route ends: end-node box enlarged per side by `padE = nodePaddingScalar * IEL / 2`, where
+  `IEL = 2 * average(w, h over all nodes)` is computed exactly from the *input* sizes — this is the
+  padded box HOLA itself uses (`Graph::padAllNodes(p,p)` adds `p = nodePaddingScalar*IEL` to w and h);
+* other nodes are shrunk by 1e-6 per side for the pass-through test;
+* separation constraints hold to 1e-4, BDRY gaps include `getExtraBdryGap()` of the returned matrix.
+
+The explanation code below (labels, offending ids) is unproven and only used for messages; the
+verdict OK / SPECFAIL is exactly `cleanDrawing = true / false`.
+-/
+namespace Driver.C14
+open Driver AdaptaVerif.Num AdaptaVerif.Check.RouteRect AdaptaVerif.Check.Drawing
+
+def parseNode (l : Array String) : Option Node := do
+  let v ← nums? (l.extract 1 5)
+  pure ⟨nat! l[0]!, v[0]!, v[1]!, v[2]!, v[3]!⟩
+
+def parsePts (ts : Array String) : Option (List P) := do
+  let v ← nums? ts
+  if v.size % 2 != 0 then none
+  else pure ((List.range (v.size / 2)).map (fun i => (⟨v[2*i]!, v[2*i+1]!⟩ : P)))
+
+def parseEdge0 (l : Array String) : Edge := ⟨nat! l[0]!, nat! l[1]!, nat! l[2]!, []⟩
+
+def parseEdge1 (l : Array String) : Option Edge := do
+  let n := nat! l[3]!
+  if l.size != 4 + 2 * n then none
+  let pts ← parsePts (l.extract 4 l.size)
+  pure ⟨nat! l[0]!, nat! l[1]!, nat! l[2]!, pts⟩
+
+def parseSepDim (gt st : String) (gap : String) : Option SepDim := do
+  let g ← parseDbl gap
+  if !g.isFinite then none
+  let gt' := if gt == "1" then GapType.bdry else GapType.centre
+  let st' := if st == "1" then SepType.eq else if st == "2" then SepType.ineq else SepType.none
+  pure ⟨st', gt', g.signbit, g.val⟩
+
+def parseSep (l : Array String) : Option SepPair := do
+  if l.size != 8 then none
+  let x ← parseSepDim l[2]! l[4]! l[6]!
+  let y ← parseSepDim l[3]! l[5]! l[7]!
+  pure ⟨nat! l[0]!, nat! l[1]!, x, y⟩
+
+def r2s (r : Rat) : String :=
+  -- short decimal rendering for messages only
+  let neg := r < 0
+  let a := if neg then -r else r
+  let scaled : Nat := (a * 1000000).floor.toNat
+  let ip := scaled / 1000000
+  let fp := scaled % 1000000
+  let fs := toString fp
+  let fs := String.ofList (List.replicate (6 - fs.length) '0') ++ fs
+  (if neg then "-" else "") ++ toString ip ++ "." ++ fs
+
+def absR (r : Rat) : Rat := if r < 0 then -r else r
+def minR (a b : Rat) : Rat := if a ≤ b then a else b
+
+/-- label + detail of one failure -/
+abbrev Fail := String × String
+
+def legs (r : List P) : List (P × P) := r.zip r.tail
+
+def explainEdge (pr : Params) (d : Drawing) (e : Edge) : List Fail := Id.run do
+  let mut out : List Fail := []
+  let tag := s!"e{e.id}({e.src}-{e.tgt})"
+  if !routeOrthogonal e.route then
+    if e.route.length < 2 then out := out ++ [("noRoute", s!"{tag} has {e.route.length} route points")]
+    else
+      for (p, q) in legs e.route do
+        if !legOrth p q then
+          let dev := minR (absR (p.x - q.x)) (absR (p.y - q.y))
+          let lab := if dev ≤ (1 : Rat) / 1000000 then "routeOrthogonal~hairline" else "routeOrthogonal"
+          out := out ++ [(lab, s!"{tag} leg ({r2s p.x},{r2s p.y})->({r2s q.x},{r2s q.y}) off-axis by {r2s (dev * 1000000000)}e-9")]
+  if !edgeEndsOk pr.padE d e then
+    out := out ++ [("routeEndsAtNodes", s!"{tag} ends not within {r2s pr.padE} of its end nodes")]
+  if !routeAvoidsOthers pr.shrink d e then
+    for n in d.nodes do
+      if n.id != e.src && n.id != e.tgt && !legsOk [n.box.shrink pr.shrink] e.route then
+        out := out ++ [("routeAvoidsOthers", s!"{tag} passes through node {n.id}")]
+  return out
+
+def adjacentEdge? (d : Drawing) (a b : Nat) : Option Edge :=
+  d.edges.find? (fun e => (e.src == a && e.tgt == b) || (e.src == b && e.tgt == a))
+
+def explainSep (pr : Params) (d : Drawing) (isTree : Bool) (sp : SepPair) : List Fail :=
+  match d.node? sp.src, d.node? sp.tgt with
+  | some s, some t =>
+    let one (nm : String) (c : SepDim) (ps pt ws wt : Rat) : List Fail :=
+      if dimHolds pr.sepTol pr.extraBdry c ps pt ws wt then [] else
+        let align := c.st == .eq && c.gt == .centre && c.gap == 0
+        let adj := adjacentEdge? d sp.src sp.tgt
+        let lab :=
+          if align && isTree && adj.isSome then "sep~treeCentreAlign"
+          else if align && (match adj with | some e => e.route.length ≥ 3 | none => false) then "sep~staleAlignBentEdge"
+          else if c.st == .ineq && c.gt == .bdry && dimHolds pr.sepTol 0 c ps pt ws wt then "sep~bdryExtraGap"
+          else "sepSatisfied"
+        let kind := (if c.gt == .bdry then "BDRY" else "CENTRE") ++ (if c.st == .eq then " ==" else " >=")
+        [(lab, s!"sep {sp.src}->{sp.tgt} {nm} {kind} gap={if c.neg then "-" else "+"}{r2s (absR c.gap)} but pos {r2s ps}->{r2s pt} ext {r2s ws},{r2s wt}")]
+    one "x" sp.x s.cx t.cx s.w t.w ++ one "y" sp.y s.cy t.cy s.h t.h
+  | _, _ => [("sepSatisfied", s!"sep {sp.src}->{sp.tgt} refers to a node that is not in the graph")]
+
+def explain (pr : Params) (before after : Drawing) (seps : List SepPair) : List Fail := Id.run do
+  let mut out : List Fail := []
+  if !sameGraph before after then
+    out := out ++ [("sameGraph", s!"ids before={before.ids} after={after.ids}; edges before={before.ekeys} after={after.ekeys}")]
+  if !sizesKept before after then
+    for n in after.nodes do
+      match before.node? n.id with
+      | some m =>
+        if m.w != n.w || m.h != n.h then
+          let dev := absR (m.w - n.w) + absR (m.h - n.h)
+          let lab := if dev ≤ (1 : Rat) / 1000000000 then "sizesKept~ulp" else "sizesKept"
+          out := out ++ [(lab, s!"node {n.id} dw={r2s ((n.w - m.w) * 1000000000000)}e-12 dh={r2s ((n.h - m.h) * 1000000000000)}e-12")]
+      | none => out := out ++ [("sizesKept", s!"node {n.id} not in input")]
+  if !noNodeOverlap pr.overlapTol after then
+    let ns := after.nodes.toArray
+    for i in [0:ns.size] do
+      for j in [i+1:ns.size] do
+        if rectsOverlap pr.overlapTol ns[i]!.box ns[j]!.box then
+          out := out ++ [("noNodeOverlap", s!"nodes {ns[i]!.id} and {ns[j]!.id} overlap")]
+  for e in after.edges do
+    if !edgeOk pr.padE pr.shrink after e then out := out ++ explainEdge pr after e
+  let isTree := after.edges.length + 1 == after.nodes.length
+  for sp in seps do
+    if !sepHolds pr.sepTol pr.extraBdry after sp then out := out ++ explainSep pr after isTree sp
+  return out
+
+def dedup (xs : List String) : List String := xs.foldl (fun acc x => if acc.contains x then acc else acc ++ [x]) []
+
+def checkCase (c : Case) : CaseResult := Id.run do
+  let some o := c.get1 "opts" | return { verdict := .diverge "no opts line" }
+  if o.size < 7 then return { verdict := .diverge "short opts line" }
+  match c.get1 "pre" with
+  | some p => if p != #["1", "1"] then return { verdict := .diverge s!"generator precondition failed (connected simple) {p}" }
+  | none => return { verdict := .diverge "no pre line" }
+  match c.get1 "threw" with
+  | some w => return { verdict := .specfail s!"exception | doHOLA threw on a connected simple graph: {" ".intercalate w.toList}" }
+  | none => pure ()
+  if (c.get1 "done").isNone then return { verdict := .diverge "no done line" }
+  let some n0 := (c.get "n0").mapM parseNode | return { verdict := .diverge "unparsable n0" }
+  let some n1 := (c.get "n1").mapM parseNode
+    | return { verdict := .specfail "nonFinite | a returned node coordinate or size is not a finite number" }
+  let e0 := (c.get "e0").map parseEdge0
+  let some e1 := (c.get "e1").mapM parseEdge1
+    | return { verdict := .specfail "nonFinite | a returned route coordinate is not a finite number" }
+  let some seps := (c.get "sep").mapM parseSep
+    | return { verdict := .specfail "nonFinite | a returned SepPair gap is not a finite number" }
+  let some padScalar := num? o[6]! | return { verdict := .diverge "bad pad scalar" }
+  let some extra := ((c.get1 "extrabdry").bind (·[0]?)).bind num? | return { verdict := .diverge "no extrabdry" }
+  if n0.size == 0 then return { verdict := .diverge "empty graph" }
+  let before : Drawing := ⟨n0.toList, e0.toList⟩
+  let after : Drawing := ⟨n1.toList, e1.toList⟩
+  let sumDims : Rat := n0.foldl (fun acc n => acc + n.w + n.h) 0
+  let iel : Rat := sumDims / (n0.size : Rat)          -- 2 * (sum / (2n))
+  let pr : Params := ⟨0, padScalar * iel / 2, (1 : Rat) / 1000000, (1 : Rat) / 10000, extra⟩
+  let ok := cleanDrawing pr before after seps.toList
+  -- distribution statistics
+  let bends := e1.foldl (fun acc e => acc + (e.route.length - 2)) 0
+  let moved := (n0.zip n1).any (fun (a, b) => a.cx != b.cx || a.cy != b.cy)
+  let isTree := e0.size + 1 == n0.size
+  let maxDeg := n0.foldl (fun acc n => Nat.max acc ((e0.filter (fun e => e.src == n.id || e.tgt == n.id)).size)) 0
+  let nb := if n0.size ≤ 10 then "n.05-10" else if n0.size ≤ 25 then "n.11-25" else if n0.size ≤ 40 then "n.26-40" else "n.41+"
+  let stats : List (String × Nat) :=
+    [("nodes", n0.size), ("edges", e0.size), ("seppairs", seps.size), ("bends", bends), (nb, 1),
+     ("opt.aca." ++ o[0]!, 1), ("opt.nearalign." ++ o[1]!, 1), ("opt.aspect." ++ o[5]!, 1),
+     (if isTree then "shape.tree" else "shape.cyclic", 1),
+     (if maxDeg ≥ 5 then "maxdeg.5+" else "maxdeg.le4", 1),
+     ("pos." ++ (((c.get1 "pos").bind (·[0]?)).getD "?"), 1), ("size." ++ (((c.get1 "size").bind (·[0]?)).getD "?"), 1)]
+  if ok then
+    return { verdict := .ok, nontrivial := moved && e1.size > 0, stats := stats ++ [("ok", 1)] }
+  let fails := explain pr before after seps.toList
+  let labels := dedup (fails.map (·.1))
+  -- at most two details per label, so that every failing clause is visible in the message
+  let details := labels.flatMap (fun l => ((fails.filter (·.1 == l)).map (·.2)).take 2)
+  let msg := "+".intercalate labels ++ " | " ++ "; ".intercalate details ++
+    (if fails.length > details.length then s!"; … ({fails.length} failures)" else "")
+  let msg := if labels.isEmpty then "cleanDrawing=false | (no explanation found)" else msg
+  return { verdict := .specfail ((msg.take 900).toString), nontrivial := true,
+           stats := stats ++ labels.map (fun l => ("fail." ++ l, 1)) }
+
+def run (_args : List String) : IO UInt32 := runCases checkCase
 
 end Driver.C14
